@@ -502,7 +502,7 @@ PROPS["C01"] = dict(
                "match what the compiler emits (the compiler is outside symbolic reach).",
     mem_gb=18, jobs=3,
     design_ref="DESIGN.md §3 C01, §3.0",
-    cap=dict(quick=240, thorough=240),
+    cap=dict(quick=600, thorough=900),
     harnesses=[
         H("c01", "c01_value_add_int_int", bounds="Integer + Integer, all i64 pairs without overflow"),
         H("c01", "c01_value_sub_int_int", "thorough", bounds="Integer - Integer"),
@@ -575,7 +575,7 @@ PROPS["C04"] = dict(
     level_note="Trusted: Kani/CBMC; sizes are concrete and small; compile-time totality is not covered.",
     mem_gb=18, jobs=3,
     design_ref="DESIGN.md §3 C04",
-    cap=dict(quick=240, thorough=240),
+    cap=dict(quick=600, thorough=900),
     harnesses=[
         _c04("c04_arith_full_add", b="[int x][int y][Add][Exit] over all i64 x,y", dispatches=4),
         _c04("c04_arith_full_sub", "thorough", b="same, Sub", dispatches=4),
@@ -767,7 +767,7 @@ PROPS["C18"] = dict(
                "argument values per kind tuple), of CallNative dispatch and of one re-entrant script call.",
     level_note="Trusted: Kani/CBMC; kinds enumerated; message text outside.",
     design_ref="DESIGN.md §3 C18",
-    cap=dict(quick=240, thorough=600), mem_gb=18, jobs=3,
+    cap=dict(quick=600, thorough=900), mem_gb=18, jobs=3,
     harnesses=[
         _c18("c18_wrapper2_int_int", b="(i64,f64) from (Integer,Integer)", dispatches=0),
         _c18("c18_wrapper2_real_int", b="(i64,f64) from (Real,Integer)", dispatches=0),
@@ -851,7 +851,7 @@ PROPS["C03"] = dict(
                "on three program shapes (endless loop, terminating program, native re-entering an endless callback).",
     level_note="Trusted: Kani/CBMC; the dispatch counter hook; small budgets.",
     design_ref="DESIGN.md §3 C03",
-    cap=dict(quick=240, thorough=600), mem_gb=18, jobs=3,
+    cap=dict(quick=600, thorough=900), mem_gb=18, jobs=3,
     harnesses=[
         _vm("c03", "c03_endless_loop", dispatches=6, bounds="[Goto 0] under budget 1..=5"),
         _vm("c03", "c03_sufficient_budget", dispatches=4, bounds="[int x][SetGlobal 0][Exit] under budget 4..=7"),
@@ -880,7 +880,7 @@ PROPS["C06"] = dict(
                "values, enumerated frame offsets) and of the closure label function over a bounded index space.",
     level_note="Trusted: Kani/CBMC; shapes enumerated; compiler not covered.",
     design_ref="DESIGN.md §3 C06",
-    cap=dict(quick=240, thorough=600), mem_gb=18, jobs=3,
+    cap=dict(quick=600, thorough=900), mem_gb=18, jobs=3,
     harnesses=[
         _vm("c06", "c06_capture_off0_idx0", "thorough", dispatches=3, bounds="capture local 0 at frame offset 0", objects=True),
         _vm("c06", "c06_capture_off0_idx1", "thorough", dispatches=3, bounds="capture local 1 at frame offset 0", objects=True),
@@ -911,7 +911,7 @@ PROPS["C15"] = dict(
                "instruction kinds at call depth 0/1 on a small VM. The compiler half (which index a card gets) is outside.",
     level_note="Trusted: Kani/CBMC; hand-built trace maps.",
     design_ref="DESIGN.md §3 C15",
-    cap=dict(quick=300, thorough=600), mem_gb=22, jobs=2,
+    cap=dict(quick=600, thorough=900), mem_gb=22, jobs=2,
     harnesses=[
         _vm("c15", "c15_missing_native_depth0", dispatches=2, bounds="missing native at depth 0"),
         _vm("c15", "c15_missing_native_depth1", "thorough", dispatches=2, bounds="missing native below one call frame"),
@@ -938,7 +938,7 @@ PROPS["C17"] = dict(
                "fresh VM for any earlier collection threshold, and repeated runs do not consume call frames.",
     level_note="Trusted: Kani/CBMC; state components enumerated in harness/src/c17.rs.",
     design_ref="DESIGN.md §3 C17",
-    cap=dict(quick=240, thorough=600), mem_gb=18, jobs=3,
+    cap=dict(quick=600, thorough=900), mem_gb=18, jobs=3,
     harnesses=[
         _vm("c17", "c17_clear_equals_fresh", dispatches=0, bounds="clear() vs fresh VM, any earlier threshold"),
         _vm("c17", "c17_run_three_times_ok", dispatches=4, bounds="[int x][Pop][Exit] run three times, call stack capacity 2"),
@@ -965,7 +965,7 @@ PROPS["C02"] = dict(
                "gaps the check finds (closure of an active frame, argument held by a host function) are recorded findings.",
     level_note="Trusted: Kani/CBMC incl. its memory model; fragments are tiny; tables are outside.",
     design_ref="DESIGN.md §3 C02",
-    cap=dict(quick=300, thorough=900), mem_gb=18, jobs=3,
+    cap=dict(quick=600, thorough=900), mem_gb=18, jobs=3,
     harnesses=[
         _vm("c02", "c02_string_in_global_survives", dispatches=2, bounds="string in a global across StringLiteral, schedule in 0..=3", objects=True),
         _vm("c02", "c02_string_on_stack_survives", dispatches=2, bounds="string on the value stack across StringLiteral", objects=True),
